@@ -365,8 +365,22 @@ func c08Scope(p *Prog, l *Ledger, rule, tier string) []*ssa.Function {
 	}
 	add(p.ReaderClosure(l, rule))
 	add(p.WriterClosure(l, rule))
-	if tier == "thorough" {
-		add(p.LibFns)
+	return out
+}
+
+// widerScope: library functions outside the reader/writer closures (transformations, unused
+// helpers). In the thorough tier their sites are listed as informational obligations: C08's
+// statement is about readers and writers only.
+func widerScope(p *Prog, l *Ledger, rule string) []*ssa.Function {
+	in := map[*ssa.Function]bool{}
+	for _, f := range c08Scope(p, l, rule, "quick") {
+		in[f] = true
+	}
+	var out []*ssa.Function
+	for _, f := range p.LibFns {
+		if !in[f] && FnName(f) != "init" {
+			out = append(out, f)
+		}
 	}
 	return out
 }
@@ -392,6 +406,22 @@ func ruleNilDeref(p *Prog, l *Ledger, tier string) {
 			}
 			l.Fail(rule, fname, key, pos, fmt.Sprintf("%s: %s of %s (%s) is not preceded by a nil test on every path; nilable source: %s", fname, derefVerb(ds.kind), descOf(ds.op), typeStr(ds.op.Type()), nilSource(ds.op)))
 		}
+	}
+	if tier == "thorough" {
+		nw, bw := 0, 0
+		for _, fn := range widerScope(p, l, rule) {
+			for _, ds := range derefSites(fn, p) {
+				if constructorNonNil(ds.op) {
+					continue
+				}
+				nw++
+				if !a.nonNil(fn, ds.op, a.at[ds.ins]) {
+					bw++
+					l.Add(Ob{Rule: rule + ".wider-scope", Fn: FnName(fn), Key: l.Key(rule+".wider-scope", FnName(fn), ds.kind, descOf(ds.op)), Pos: p.Pos(ds.ins.Pos()), Status: Info, Why: "outside the reader/writer closures: " + derefVerb(ds.kind) + " of " + descOf(ds.op) + " not proved non-nil"})
+				}
+			}
+		}
+		l.Note("E1 thorough: %d further sites in transformations and helpers outside the C08 scope, %d of them unproved (listed as info)", nw, bw)
 	}
 	l.Note("E1: %d trivially non-nil dereference operands (allocations, field addresses, globals' addresses) not listed", trivial)
 	l.Min(rule, sites, 150)
